@@ -161,6 +161,7 @@ public:
 		// And empty() doesn't guarantee the list is still empty after the function returned.
 		//std::lock_guard<Mutex> lockGuard(mutex);
 
+		EVENTPP_VERIF_POINT("cl.head");
 		return ! head;
 	}
 
@@ -203,6 +204,7 @@ public:
 		// Disable this assertion because it's too slow in debug mode.
 		//assert(before.expired() || ownsHandle(before));
 
+		EVENTPP_VERIF_POINT("cl.before");
 		NodePtr beforeNode = before.lock();
 		if(beforeNode) {
 			NodePtr node(doAllocateNode(callback));
@@ -335,6 +337,7 @@ private:
 		const Counter counter = currentCounter.load(std::memory_order_acquire);
 
 		while(node) {
+			EVENTPP_VERIF_POINT("cl.counter");
 			if(node->counter != removedCounter && counter >= node->counter) {
 				if(! f(node)) {
 					return false;
